@@ -909,6 +909,13 @@ class SupportGenerator(CodeGenerator):
                 files.append(resource)
         for resource in self._get_templates_by_support_type(ResourceType.TYPE_SUPPORT):
             files.append(resource)
+        # A template in a user-provided support templates directory masks the built-in template of the same
+        # name. Report the file that is actually rendered.
+        for i, resource in enumerate(files):
+            if resource.suffix == TEMPLATE_SUFFIX:
+                user_template = self._dsdl_template_loader.find_user_template(resource.name)
+                if user_template is not None:
+                    files[i] = user_template
         return files
 
     def generate_all(
